@@ -331,11 +331,12 @@ def metaBytes : Fmt → MetaKVs → Bytes
   | .v2, m => UInt8.ofNat m.length :: m.flatMap fun kv => (UInt8.ofNat kv.1.length :: kv.1) ++ (UInt8.ofNat kv.2.length :: kv.2)
   | .v1, m => le 8 m.length ++ m.flatMap fun kv => (le 4 kv.1.length ++ kv.1) ++ (le 4 kv.2.length ++ kv.2)
 
-/-- order in which prefixes are written: v2 ranges over the array index (little-endian value of the prefix),
-    v1 sorts the map keys with `bytes.Compare` (first byte, then second byte) -/
+/-- order in which prefixes are written: v2 ranges over the array index (little-endian value of the prefix);
+    v1 sorts the map keys with `bytes.Compare`, i.e. ascending in the big-endian reading `i = 256*b0 + b1`
+    of the two bytes, whose little-endian value (the bucket index) is `b0 + 256*b1 = i/256 + 256*(i%256)` -/
 def prefixOrder : Fmt → List Nat
   | .v2 => List.range numPrefixes
-  | .v1 => (List.range 256).flatMap fun b0 => (List.range 256).map fun b1 => b0 + 256 * b1
+  | .v1 => (List.range numPrefixes).map fun i => i / 256 + 256 * (i % 256)
 
 /-- offset-table entries in file order -/
 def entries (fmt : Fmt) (sd : Sealed) : List (Nat × Lay) :=
@@ -480,5 +481,596 @@ def hasB (f : File) (r : Rdr) (p x : Nat) : Res :=
         -- `io.NewSectionReader(contentReader, offset+4, int64(numHashes*8))` with the product in uint32
         searchB (fun i => if i * 8 + 8 ≤ (unle nb * 8) % 2^32 then (rd f (r.base + off + 4 + i * 8) 8).map unle else none)
           x (unle nb) (unle nb + 1) 0
+
+/-! ### byte level: the reader over `encode` agrees with the abstract reader -/
+
+theorem rd_toArray (l : Bytes) (off len : Nat) :
+    rd l.toArray off len = if off + len ≤ l.length then some (slice l off len) else none := by
+  unfold rd slice
+  by_cases h : off + len ≤ l.length
+  · simp [h, List.extract]
+  · simp [h]
+
+theorem slice_slice (b : Bytes) (o L a n : Nat) (h : a + n ≤ L) :
+    slice (slice b o L) a n = slice b (o + a) n := by
+  unfold slice
+  rw [List.drop_take, List.drop_drop, List.take_take]
+  congr 1
+  omega
+
+theorem slice_length (b : Bytes) (o n : Nat) (h : o + n ≤ b.length) : (slice b o n).length = n := by
+  unfold slice; simp; omega
+
+theorem slice_zero_append (a b : Bytes) : slice (a ++ b) 0 a.length = a := by
+  unfold slice; simp
+
+theorem bucketBytes_length (lay : Lay) : (bucketBytes lay).length = 4 + 8 * lay.size := by
+  unfold bucketBytes
+  rw [List.length_append, le_length]
+  congr 1
+  have : ∀ l : List (Nat × Unit), (l.flatMap (fun e => le 8 e.1)).length = 8 * l.length := by
+    intro l
+    induction l with
+    | nil => rfl
+    | cons x r ih => simp [List.flatMap_cons, le_length, ih]; omega
+  rw [this]; simp
+
+/-- the count field of a bucket body -/
+theorem bucketBytes_count (lay : Lay) : slice (bucketBytes lay) 0 4 = le 4 lay.size := by
+  unfold bucketBytes
+  have := slice_zero_append (le 4 lay.size) (lay.toList.flatMap (fun e => le 8 e.1))
+  rwa [le_length] at this
+
+/-- the `i`-th hash of a bucket body -/
+theorem bucketBytes_hash (lay : Lay) (i : Nat) (hi : i < lay.size) :
+    slice (bucketBytes lay) (4 + i * 8) 8 = le 8 (lay.getD i default).1 := by
+  unfold bucketBytes
+  have h4 := slice_append_right (le 4 lay.size) (lay.toList.flatMap (fun e => le 8 e.1)) (i * 8) 8
+  rw [le_length] at h4
+  rw [h4, List.flatMap_def]
+  have hfix : ∀ x ∈ lay.toList.map (fun e => le 8 e.1), x.length = 8 := by
+    intro x hx
+    obtain ⟨e, _, rfl⟩ := List.mem_map.1 hx
+    exact le_length _ _
+  have hlen : i < (lay.toList.map (fun e => le 8 e.1)).length := by simpa using hi
+  have := slice_flatten_fixed _ 8 hfix i hlen
+  rw [Nat.mul_comm] at this
+  rw [this]
+  simp [Array.getD, hi]
+
+/-- the byte-level search over a getter that returns the layout's keys is the abstract search -/
+theorem searchB_eq (lay : Lay) (get : Nat → Option Nat) (x : Nat)
+    (hget : ∀ i, i < lay.size → get i = some (lay.getD i default).1) (fuel idx : Nat) :
+    searchB get x lay.size fuel idx = if (Eytz.search lay x fuel idx).isSome then Res.yes else Res.no := by
+  induction fuel generalizing idx with
+  | zero => simp [searchB, Eytz.search]
+  | succ f ih =>
+    rw [searchB, Eytz.search]
+    by_cases hi : idx < lay.size
+    · rw [if_pos hi, if_pos hi, hget idx hi]
+      simp only []
+      by_cases he : (lay.getD idx default).1 = x
+      · rw [if_pos he, if_pos he]; rfl
+      · rw [if_neg he, if_neg he]; exact ih _
+    · rw [if_neg hi, if_neg hi]; rfl
+
+/-- what the offset-table loop of `readHeader` computes from `tableFrom` -/
+def setAll : List (Nat × Lay) → Nat → Array (Option Nat) → Array (Option Nat)
+  | [], _, t => t
+  | e :: r, off, t => setAll r (off + (4 + 8 * e.2.size)) (t.setIfInBounds e.1 (some (off % 2^64)))
+
+/-- running offset of the first entry with prefix `p` -/
+def findOff : List (Nat × Lay) → Nat → Nat → Option Nat
+  | [], _, _ => none
+  | e :: r, off, p => if e.1 = p then some off else findOff r (off + (4 + 8 * e.2.size)) p
+
+theorem parseTable_step (n p off : Nat) (rest : Bytes) (t : Array (Option Nat)) (hp : p < 65536) :
+    parseTable (n+1) ((le 2 p ++ le 8 off) ++ rest) t
+      = parseTable n rest (t.setIfInBounds p (some (off % 2^64))) := by
+  have e2 : le 2 p = [UInt8.ofNat (p % 256), UInt8.ofNat (p / 256 % 256)] := rfl
+  obtain ⟨o0, o1, o2, o3, o4, o5, o6, o7, e8⟩ : ∃ o0 o1 o2 o3 o4 o5 o6 o7, le 8 off = [o0, o1, o2, o3, o4, o5, o6, o7] :=
+    ⟨_, _, _, _, _, _, _, _, rfl⟩
+  have hu : unle [o0, o1, o2, o3, o4, o5, o6, o7] = off % 2^64 := by
+    rw [← e8, unle_le]
+  rw [e2, e8]
+  simp only [List.cons_append, List.nil_append, parseTable, hu]
+  congr 2
+  simp [UInt8.toNat_ofNat']
+  omega
+
+theorem parseTable_tableFrom (es : List (Nat × Lay)) (off : Nat) (t : Array (Option Nat))
+    (hk : ∀ e ∈ es, e.1 < 65536) :
+    parseTable es.length (tableFrom es off) t = some (setAll es off t) := by
+  induction es generalizing off t with
+  | nil => rfl
+  | cons e r ih =>
+    rw [List.length_cons, tableFrom, parseTable_step _ _ _ _ _ (hk e (List.mem_cons_self ..)), setAll]
+    exact ih _ _ (fun e' he' => hk e' (List.mem_cons_of_mem _ he'))
+
+theorem setAll_size (es : List (Nat × Lay)) (off : Nat) (t : Array (Option Nat)) : (setAll es off t).size = t.size := by
+  induction es generalizing off t with
+  | nil => rfl
+  | cons e r ih => rw [setAll, ih]; simp
+
+theorem setAll_not_mem (es : List (Nat × Lay)) (off : Nat) (t : Array (Option Nat)) (p : Nat)
+    (h : ∀ e ∈ es, e.1 ≠ p) : (setAll es off t).getD p none = t.getD p none := by
+  induction es generalizing off t with
+  | nil => rfl
+  | cons e r ih =>
+    rw [setAll, ih _ _ (fun e' he' => h e' (List.mem_cons_of_mem _ he'))]
+    exact Eytz.getD_setIfInBounds_ne t e.1 p _ none (h e (List.mem_cons_self ..))
+
+theorem setAll_spec (es : List (Nat × Lay)) (off : Nat) (t : Array (Option Nat)) (p : Nat)
+    (hnd : es.Pairwise (fun a b => a.1 ≠ b.1)) (hk : ∀ e ∈ es, e.1 < t.size) :
+    (setAll es off t).getD p none =
+      match findOff es off p with
+      | some o => some (o % 2^64)
+      | none => t.getD p none := by
+  induction es generalizing off t with
+  | nil => rfl
+  | cons e r ih =>
+    have hnd' := List.pairwise_cons.1 hnd
+    rw [setAll, findOff]
+    by_cases he : e.1 = p
+    · rw [if_pos he]
+      rw [setAll_not_mem _ _ _ _ (fun e' he' => he ▸ (hnd'.1 e' he').symm)]
+      rw [← he]
+      exact Eytz.getD_setIfInBounds_eq t e.1 _ none (hk e (List.mem_cons_self ..))
+    · rw [if_neg he, ih _ _ hnd'.2 (fun e' he' => by simpa using hk e' (List.mem_cons_of_mem _ he'))]
+      cases findOff r (off + (4 + 8 * e.2.size)) p with
+      | some o => rfl
+      | none => exact Eytz.getD_setIfInBounds_ne t e.1 p _ none he
+
+theorem findOff_none (es : List (Nat × Lay)) (off p : Nat) (h : findOff es off p = none) : ∀ e ∈ es, e.1 ≠ p := by
+  induction es generalizing off with
+  | nil => simp
+  | cons e r ih =>
+    rw [findOff] at h
+    by_cases he : e.1 = p
+    · simp [he] at h
+    · rw [if_neg he] at h
+      intro e' he'
+      rcases List.mem_cons.1 he' with rfl | h2
+      · exact he
+      · exact ih _ h e' h2
+
+theorem bodyBytes_cons (e : Nat × Lay) (r : List (Nat × Lay)) :
+    bodyBytes (e :: r) = bucketBytes e.2 ++ bodyBytes r := by
+  simp [bodyBytes]
+
+/-- the body of the bucket the offset table points at -/
+theorem findOff_body (es : List (Nat × Lay)) (off p o : Nat) (h : findOff es off p = some o) :
+    ∃ lay, (p, lay) ∈ es ∧ off ≤ o ∧ (o - off) + (4 + 8 * lay.size) ≤ (bodyBytes es).length ∧
+      slice (bodyBytes es) (o - off) (4 + 8 * lay.size) = bucketBytes lay := by
+  induction es generalizing off with
+  | nil => simp [findOff] at h
+  | cons e r ih =>
+    rw [findOff] at h
+    rw [bodyBytes_cons]
+    by_cases he : e.1 = p
+    · rw [if_pos he] at h
+      have ho : o = off := by simpa using h.symm
+      subst ho
+      refine ⟨e.2, ?_, Nat.le_refl _, ?_, ?_⟩
+      · rw [← he]; exact List.mem_cons_self ..
+      · rw [List.length_append, bucketBytes_length]; omega
+      · rw [Nat.sub_self, ← bucketBytes_length]
+        unfold slice; simp
+    · rw [if_neg he] at h
+      obtain ⟨lay, hm, hle, hfit, hsl⟩ := ih _ h
+      refine ⟨lay, List.mem_cons_of_mem _ hm, by omega, ?_, ?_⟩
+      · rw [List.length_append, bucketBytes_length]; omega
+      · have : o - off = (bucketBytes e.2).length + (o - (off + (4 + 8 * e.2.size))) := by
+          rw [bucketBytes_length]; omega
+        rw [this, slice_append_right]; exact hsl
+
+/-! entries -/
+
+theorem mem_prefixOrder (fmt : Fmt) (p : Nat) : p ∈ prefixOrder fmt ↔ p < numPrefixes := by
+  cases fmt with
+  | v2 => simp [prefixOrder]
+  | v1 =>
+    simp only [prefixOrder, List.mem_map, List.mem_range, numPrefixes]
+    constructor
+    · rintro ⟨i, hi, rfl⟩; omega
+    · intro hp
+      exact ⟨(p % 256) * 256 + p / 256, by omega, by omega⟩
+
+theorem prefixOrder_nodup (fmt : Fmt) : (prefixOrder fmt).Pairwise (· ≠ ·) := by
+  cases fmt with
+  | v2 => exact List.nodup_range
+  | v1 =>
+    simp only [prefixOrder]
+    rw [List.pairwise_map]
+    refine List.Pairwise.imp_of_mem ?_ (List.pairwise_lt_range (n := numPrefixes))
+    intro a b ha hb hab
+    simp only [List.mem_range, numPrefixes] at ha hb
+    omega
+
+theorem mem_entries (fmt : Fmt) (sd : Sealed) (p : Nat) (lay : Lay) :
+    (p, lay) ∈ entries fmt sd ↔ p < numPrefixes ∧ sd.getD p none = some lay := by
+  unfold entries
+  rw [List.mem_filterMap]
+  constructor
+  · rintro ⟨q, hq, hf⟩
+    cases hs : sd.getD q none with
+    | none => simp [hs] at hf
+    | some l =>
+      simp only [hs, Option.map_some, Option.some.injEq, Prod.mk.injEq] at hf
+      obtain ⟨rfl, rfl⟩ := hf
+      exact ⟨(mem_prefixOrder fmt q).1 hq, hs⟩
+  · rintro ⟨hp, hs⟩
+    exact ⟨p, (mem_prefixOrder fmt p).2 hp, by simp [hs]⟩
+
+theorem entries_key (fmt : Fmt) (sd : Sealed) (e : Nat × Lay) (he : e ∈ entries fmt sd) :
+    e.1 < numPrefixes ∧ sd.getD e.1 none = some e.2 :=
+  (mem_entries fmt sd e.1 e.2).1 he
+
+theorem entries_nodup (fmt : Fmt) (sd : Sealed) : (entries fmt sd).Pairwise (fun a b => a.1 ≠ b.1) := by
+  unfold entries
+  refine List.Pairwise.filterMap _ ?_ (prefixOrder_nodup fmt)
+  intro a a' hne b hb b' hb'
+  cases hs : sd.getD a none with
+  | none => simp [hs] at hb
+  | some l =>
+    cases hs' : sd.getD a' none with
+    | none => simp [hs'] at hb'
+    | some l' =>
+      simp only [hs, hs', Option.map_some, Option.some.injEq] at hb hb'
+      subst hb; subst hb'
+      exact hne
+
+/-- metadata the header can carry: v2 = the `indexmeta` limits; v1 = what Borsh `ReadString` accepts back -/
+def metaOk : Fmt → MetaKVs → Prop
+  | .v2, m => m.length ≤ 255 ∧ ∀ kv ∈ m, kv.1.length ≤ 255 ∧ kv.2.length ≤ 255
+  | .v1, m => m.length < 2^64 ∧ ∀ kv ∈ m, kv.1.length ≤ 0x7FFFFFFF ∧ kv.2.length ≤ 0x7FFFFFFF
+
+theorem take_length_append (a b : Bytes) : (a ++ b).take a.length = a := by simp
+theorem drop_length_append (a b : Bytes) : (a ++ b).drop a.length = b := by simp
+
+theorem ofNat_toNat_255 (n : Nat) (h : n ≤ 255) : (UInt8.ofNat n).toNat = n := by
+  simp [UInt8.toNat_ofNat']; omega
+
+theorem parseMeta2_enc (m : MetaKVs) (rest : Bytes) (h : ∀ kv ∈ m, kv.1.length ≤ 255 ∧ kv.2.length ≤ 255) :
+    parseMeta2 m.length
+      ((m.flatMap fun kv => (UInt8.ofNat kv.1.length :: kv.1) ++ (UInt8.ofNat kv.2.length :: kv.2)) ++ rest)
+      = some (m, rest) := by
+  induction m with
+  | nil => rfl
+  | cons kv r ih =>
+    obtain ⟨hk, hv⟩ := h kv (List.mem_cons_self ..)
+    have ih' := ih (fun kv' h' => h kv' (List.mem_cons_of_mem _ h'))
+    simp only [List.length_cons, List.flatMap_cons, List.cons_append, List.append_assoc, parseMeta2,
+      ofNat_toNat_255 _ hk]
+    rw [take_length_append, drop_length_append]
+    simp only [ofNat_toNat_255 _ hv]
+    simp only [List.cons_append] at ih'
+    rw [take_length_append, drop_length_append, ih', if_neg (Nat.lt_irrefl _)]
+    simp
+
+theorem readString_enc (k rest : Bytes) (hk : k.length ≤ 0x7FFFFFFF) :
+    readString ((le 4 k.length ++ k) ++ rest) = some (k, rest) := by
+  have h4 : (le 4 k.length).length = 4 := le_length _ _
+  have t4 : ((le 4 k.length ++ k) ++ rest).take 4 = le 4 k.length := by
+    rw [List.append_assoc]; rw [← h4]; exact take_length_append _ _
+  have d4 : ((le 4 k.length ++ k) ++ rest).drop 4 = k ++ rest := by
+    rw [List.append_assoc]; rw [← h4]; exact drop_length_append _ _
+  have hu : unle (le 4 k.length) = k.length := unle_le_of_lt 4 _ (by
+    have : (256:Nat)^4 = 4294967296 := by decide
+    omega)
+  unfold readString
+  simp only [t4, d4, h4, hu, Nat.lt_irrefl, if_false]
+  rw [if_neg (by omega), take_length_append, drop_length_append]
+  simp
+
+theorem parseMeta1_enc (m : MetaKVs) (rest : Bytes)
+    (h : ∀ kv ∈ m, kv.1.length ≤ 0x7FFFFFFF ∧ kv.2.length ≤ 0x7FFFFFFF) :
+    parseMeta1 m.length
+      ((m.flatMap fun kv => (le 4 kv.1.length ++ kv.1) ++ (le 4 kv.2.length ++ kv.2)) ++ rest) = some (m, rest) := by
+  induction m with
+  | nil => rfl
+  | cons kv r ih =>
+    obtain ⟨hk, hv⟩ := h kv (List.mem_cons_self ..)
+    have ih' := ih (fun kv' h' => h kv' (List.mem_cons_of_mem _ h'))
+    simp only [List.length_cons, List.flatMap_cons, parseMeta1]
+    rw [List.append_assoc, List.append_assoc, readString_enc _ _ hk]
+    simp only []
+    rw [readString_enc _ _ hv]
+    simp only [ih']
+
+theorem parseMeta_enc (fmt : Fmt) (m : MetaKVs) (rest : Bytes) (h : metaOk fmt m) :
+    parseMeta fmt (metaBytes fmt m ++ rest) = some (m, rest) := by
+  cases fmt with
+  | v2 =>
+    obtain ⟨hl, hkv⟩ := h
+    simp only [parseMeta, metaBytes, List.cons_append, ofNat_toNat_255 _ hl]
+    exact parseMeta2_enc m rest hkv
+  | v1 =>
+    obtain ⟨hl, hkv⟩ := h
+    have h8 : (le 8 m.length).length = 8 := le_length _ _
+    have hu : unle (le 8 m.length) = m.length := unle_le_of_lt 8 _ (by
+      have : (256:Nat)^8 = 2^64 := by decide
+      omega)
+    simp only [parseMeta, metaBytes, List.append_assoc]
+    have t8 := take_length_append (le 8 m.length) ((m.flatMap fun kv => (le 4 kv.1.length ++ kv.1) ++ (le 4 kv.2.length ++ kv.2)) ++ rest)
+    have d8 := drop_length_append (le 8 m.length) ((m.flatMap fun kv => (le 4 kv.1.length ++ kv.1) ++ (le 4 kv.2.length ++ kv.2)) ++ rest)
+    rw [h8] at t8 d8
+    simp only [List.append_assoc] at t8 d8
+    rw [t8, d8, h8, hu, if_neg (Nat.lt_irrefl _)]
+    have := parseMeta1_enc m rest hkv
+    simp only [List.append_assoc] at this
+    exact this
+
+theorem magicOf_length (fmt : Fmt) : (magicOf fmt).length = 8 := by cases fmt <;> rfl
+theorem versionOf_lt (fmt : Fmt) : versionOf fmt < 256 ^ 8 := by cases fmt <;> decide
+
+theorem entries_length_le (fmt : Fmt) (sd : Sealed) : (entries fmt sd).length ≤ numPrefixes := by
+  unfold entries
+  refine Nat.le_trans (List.length_filterMap_le _ _) ?_
+  cases fmt <;> simp [prefixOrder]
+
+theorem drop16 (a b c : Bytes) (ha : a.length = 8) (hb : b.length = 8) : (a ++ (b ++ c)).drop 16 = c := by
+  have : (16:Nat) = a.length + b.length := by omega
+  rw [this, ← List.drop_drop, drop_length_append, drop_length_append]
+
+def initTable : Array (Option Nat) := Array.replicate numPrefixes none
+
+/-- `NewReader` succeeds on every file `Seal` writes, and reads back exactly the offsets that were written -/
+theorem openB_encode (fmt : Fmt) (m : MetaKVs) (sd : Sealed) (hm : metaOk fmt m)
+    (hh : (headerRest fmt m (entries fmt sd)).length < 2^32) :
+    openB fmt (encode fmt m sd).toArray =
+      some ⟨fmt, setAll (entries fmt sd) 0 initTable, (headerBytes fmt m (entries fmt sd)).length, m⟩ := by
+  obtain ⟨es, hes⟩ : ∃ es, es = entries fmt sd := ⟨_, rfl⟩
+  obtain ⟨R, hR⟩ : ∃ R, R = headerRest fmt m es := ⟨_, rfl⟩
+  obtain ⟨Bd, hBd⟩ : ∃ Bd, Bd = bodyBytes es := ⟨_, rfl⟩
+  have hF : encode fmt m sd = le 4 R.length ++ (R ++ Bd) := by
+    rw [encode, headerBytes, ← hes, ← hR, ← hBd, List.append_assoc]
+  have hHlen : (headerBytes fmt m (entries fmt sd)).length = R.length + 4 := by
+    rw [headerBytes, ← hes, ← hR, List.length_append, le_length]; omega
+  have h4 : (le 4 R.length).length = 4 := le_length _ _
+  have hFlen : (encode fmt m sd).length = 4 + (R.length + Bd.length) := by
+    rw [hF, List.length_append, List.length_append, h4]
+  rw [← hes] at hh
+  rw [← hR] at hh
+  have hu4 : unle (le 4 R.length) = R.length := unle_le_of_lt 4 _ (by
+    have : (256:Nat)^4 = 2^32 := by decide
+    omega)
+  have r1 : rd (encode fmt m sd).toArray 0 1 = some (slice (encode fmt m sd) 0 1) := by
+    rw [rd_toArray, if_pos (by omega)]
+  have r4 : rd (encode fmt m sd).toArray 0 4 = some (le 4 R.length) := by
+    rw [rd_toArray, if_pos (by omega), hF]
+    have := slice_zero_append (le 4 R.length) (R ++ Bd)
+    rw [h4] at this; rw [this]
+  have rR : rd (encode fmt m sd).toArray 4 R.length = some R := by
+    rw [rd_toArray, if_pos (by omega), hF]
+    have := slice_append_right (le 4 R.length) (R ++ Bd) 0 R.length
+    rw [h4] at this; rw [this, slice_zero_append]
+  -- the header fields
+  have hmag := magicOf_length fmt
+  have h8v : (le 8 (versionOf fmt)).length = 8 := le_length _ _
+  have h8n : (le 8 es.length).length = 8 := le_length _ _
+  have hRdef : R = magicOf fmt ++ (le 8 (versionOf fmt) ++ (metaBytes fmt m ++ (le 8 es.length ++ tableFrom es 0))) := by
+    rw [hR, headerRest]
+  have tk8 : R.take 8 = magicOf fmt := by
+    rw [hRdef, ← hmag]; exact take_length_append _ _
+  have dr8 : R.drop 8 = le 8 (versionOf fmt) ++ (metaBytes fmt m ++ (le 8 es.length ++ tableFrom es 0)) := by
+    rw [hRdef, ← hmag]; exact drop_length_append _ _
+  have tk8v : (R.drop 8).take 8 = le 8 (versionOf fmt) := by
+    rw [dr8, ← h8v]; exact take_length_append _ _
+  have dr16 : R.drop 16 = metaBytes fmt m ++ (le 8 es.length ++ tableFrom es 0) := by
+    rw [hRdef]; exact drop16 _ _ _ hmag h8v
+  have huv : unle (le 8 (versionOf fmt)) = versionOf fmt := unle_le_of_lt 8 _ (versionOf_lt fmt)
+  have hnlt : es.length < 256 ^ 8 := by
+    have := entries_length_le fmt sd
+    rw [← hes] at this
+    have : (256:Nat)^8 = 2^64 := by decide
+    simp only [numPrefixes] at *
+    omega
+  have hun : unle (le 8 es.length) = es.length := unle_le_of_lt 8 _ hnlt
+  have tk8n : (le 8 es.length ++ tableFrom es 0).take 8 = le 8 es.length := by
+    rw [← h8n]; exact take_length_append _ _
+  have dr8n : (le 8 es.length ++ tableFrom es 0).drop 8 = tableFrom es 0 := by
+    rw [← h8n]; exact drop_length_append _ _
+  have hkeys : ∀ e ∈ es, e.1 < 65536 := by
+    intro e he
+    rw [hes] at he
+    exact (entries_key fmt sd e he).1
+  unfold openB
+  simp only [r1, r4, hu4, rR, tk8, ne_eq, not_true_eq_false, if_false, tk8v, h8v, Nat.lt_irrefl, huv, dr16,
+    parseMeta_enc fmt m _ hm, tk8n, h8n, hun, dr8n, parseTable_tableFrom es 0 _ hkeys]
+  rw [hHlen, initTable, hes]
+
+
+/-- what the byte-level theorem needs from the sealed buckets: `numHashes*8` fits `uint32`, hashes fit `uint64` -/
+structure SealedOk (sd : Sealed) : Prop where
+  small : ∀ p lay, sd.getD p none = some lay → lay.size < 2^29
+  keys : ∀ p lay, sd.getD p none = some lay → ∀ i, i < lay.size → (lay.getD i default).1 < 2^64
+
+/-- `Reader.Has` over the bytes `Seal` wrote answers what the abstract reader answers (no error, same verdict) -/
+theorem hasB_encode (fmt : Fmt) (m : MetaKVs) (sd : Sealed) (hok : SealedOk sd)
+    (hlen : (encode fmt m sd).length < 2^63) (p x : Nat) (hp : p < numPrefixes) :
+    hasB (encode fmt m sd).toArray
+        ⟨fmt, setAll (entries fmt sd) 0 initTable, (headerBytes fmt m (entries fmt sd)).length, m⟩ p x
+      = if hasA sd p x then Res.yes else Res.no := by
+  obtain ⟨es, hes⟩ : ∃ es, es = entries fmt sd := ⟨_, rfl⟩
+  obtain ⟨Hd, hHd⟩ : ∃ Hd, Hd = headerBytes fmt m es := ⟨_, rfl⟩
+  obtain ⟨Bd, hBd⟩ : ∃ Bd, Bd = bodyBytes es := ⟨_, rfl⟩
+  have hF : encode fmt m sd = Hd ++ Bd := by rw [encode, ← hes, ← hHd, ← hBd]
+  rw [← hes, ← hHd]
+  have hFlen : (encode fmt m sd).length = Hd.length + Bd.length := by rw [hF, List.length_append]
+  have hrd : ∀ k n, k + n ≤ Bd.length → rd (encode fmt m sd).toArray (Hd.length + k) n = some (slice Bd k n) := by
+    intro k n hkn
+    rw [rd_toArray, if_pos (by omega), hF, slice_append_right]
+  have htab := setAll_spec es 0 initTable p (hes ▸ entries_nodup fmt sd) (by
+    intro e he
+    rw [hes] at he
+    simpa [initTable] using (entries_key fmt sd e he).1)
+  unfold hasB
+  simp only []
+  rw [htab]
+  cases hfo : findOff es 0 p with
+  | none =>
+    have hnone : sd.getD p none = none := by
+      cases hs : sd.getD p none with
+      | none => rfl
+      | some lay =>
+        have hm : (p, lay) ∈ es := hes ▸ (mem_entries fmt sd p lay).2 ⟨hp, hs⟩
+        exact absurd rfl (findOff_none es 0 p hfo _ hm)
+    have : initTable.getD p none = none := by simp [initTable, Array.getD, hp]
+    simp only [this, hasA, hnone]
+    rfl
+  | some o =>
+    obtain ⟨lay, hm, _, hfit, hsl⟩ := findOff_body es 0 p o hfo
+    rw [Nat.sub_zero, ← hBd] at hfit hsl
+    have hs : sd.getD p none = some lay := ((mem_entries fmt sd p lay).1 (hes ▸ hm)).2
+    have hsmall := hok.small p lay hs
+    have hkeys := hok.keys p lay hs
+    have ho63 : o < 2^63 := by omega
+    have homod : o % 2^64 = o := Nat.mod_eq_of_lt (by omega)
+    have hcount : rd (encode fmt m sd).toArray (Hd.length + o) 4 = some (le 4 lay.size) := by
+      rw [hrd o 4 (by omega)]
+      have := slice_slice Bd o (4 + 8 * lay.size) 0 4 (by omega)
+      rw [Nat.add_zero, hsl, bucketBytes_count] at this
+      rw [this]
+    have hun : unle (le 4 lay.size) = lay.size := unle_le_of_lt 4 _ (by
+      have : (256:Nat)^4 = 2^32 := by decide
+      omega)
+    simp only [homod, hcount, hun]
+    rw [if_neg (by omega), if_neg (by omega)]
+    have hlim : lay.size * 8 % 2^32 = lay.size * 8 := Nat.mod_eq_of_lt (by omega)
+    rw [searchB_eq lay _ x ?_ (lay.size + 1) 0]
+    · simp only [hasA, hs, searchLay]
+    · intro i hi
+      rw [hlim, if_pos (by omega)]
+      have e1 : Hd.length + o + 4 + i * 8 = Hd.length + (o + (4 + i * 8)) := by omega
+      rw [e1, hrd _ 8 (by omega)]
+      have := slice_slice Bd o (4 + 8 * lay.size) (4 + i * 8) 8 (by omega)
+      rw [hsl, bucketBytes_hash lay i hi] at this
+      rw [← this]
+      have hk8 : unle (le 8 (lay.getD i default).1) = (lay.getD i default).1 := unle_le_of_lt 8 _ (by
+        have : (256:Nat)^8 = 2^64 := by decide
+        have := hkeys i hi
+        omega)
+      rw [Option.map_some, hk8]
+
+/-- every slot of an eytzinger layout holds an element of the input -/
+theorem layout_getD_mem {β : Type} [Inhabited β] (xs : Array (Nat × β)) (p : Nat) (hp : p < xs.size) :
+    ∃ j, j < xs.size ∧ (Eytz.layout xs).getD p default = xs.getD j default := by
+  have hs := Eytz.fill_spec xs xs.size 1 0 (Array.replicate xs.size default) (by omega) (by simp)
+  obtain ⟨_, _, hval⟩ := hs
+  have := hval (p+1) (by omega) (by omega)
+  rw [show Eytz.inSubB 1 (p+1) = true from Eytz.inSub_one (p+1) (by omega)] at this
+  simp only [Nat.add_sub_cancel, if_true] at this
+  have hr := Eytz.rank_range xs.size (p+1) 1 0 (by omega) (Eytz.inSub_one (p+1) (by omega)) (by omega)
+  rw [Eytz.size_one] at hr
+  exact ⟨Eytz.rank xs.size 1 0 (p+1), by omega, this⟩
+
+theorem layoutOf_key_mem (l : List Nat) (i : Nat) (hi : i < (layoutOf l).size) :
+    ((layoutOf l).getD i default).1 ∈ l := by
+  rw [size_layoutOf] at hi
+  obtain ⟨j, hj, he⟩ := layout_getD_mem ((cleanSet l).map (fun x => (x, ()))).toArray i (by simpa using hi)
+  have hj' : j < (cleanSet l).length := by simpa using hj
+  rw [layoutOf, he]
+  have : (((cleanSet l).map (fun x => (x, ()))).toArray.getD j default).1 = (cleanSet l)[j] := by
+    simp [Array.getD, hj']
+  rw [this]
+  exact (mem_cleanSet _ l).1 (List.getElem_mem hj')
+
+theorem dedupFrom_length_le (prev : Nat) (l : List Nat) : (dedupFrom prev l).length ≤ l.length := by
+  induction l generalizing prev with
+  | nil => simp [dedupFrom]
+  | cons y r ih =>
+    rw [dedupFrom]
+    by_cases e : y = prev
+    · rw [if_pos e]; have := ih prev; simp; omega
+    · rw [if_neg e]; have := ih y; simp; omega
+
+/-- `numHashes` of a bucket never exceeds the number of `Put`s into it -/
+theorem cleanSet_length_le (l : List Nat) : (cleanSet l).length ≤ l.length := by
+  unfold cleanSet
+  have hm := List.length_mergeSort (le := fun a b => decide (a ≤ b)) l
+  cases hs : l.mergeSort (fun a b => decide (a ≤ b)) with
+  | nil => simp [dedup]
+  | cons y r =>
+    rw [hs] at hm
+    have := dedupFrom_length_le y r
+    simp only [dedup, List.length_cons] at *
+    omega
+
+theorem sealBucket_some (fmt : Fmt) (b : List Nat) (lay : Lay) (h : sealBucket fmt b = some lay) : lay = layoutOf b := by
+  cases fmt with
+  | v2 => simpa [sealBucket] using h.symm
+  | v1 =>
+    simp only [sealBucket] at h
+    split at h
+    · simp at h
+    · simpa using h.symm
+
+/-- sealed buckets satisfy the size hypotheses when the hash is 64-bit and no bucket has 2^29 distinct hashes -/
+theorem sealedOk_sealA (fmt : Fmt) (w : Buckets)
+    (hk : ∀ p x, x ∈ w.getD p [] → x < 2^64)
+    (hsmall : ∀ p, (cleanSet (w.getD p [])).length < 2^29) : SealedOk (sealA fmt w) := by
+  have key : ∀ p lay, (sealA fmt w).getD p none = some lay → lay = layoutOf (w.getD p []) := by
+    intro p lay h
+    by_cases hp : p < w.size
+    · rw [getD_sealA fmt w p hp] at h
+      exact sealBucket_some fmt _ lay h
+    · simp [sealA, Array.getD, hp] at h
+  constructor
+  · intro p lay h
+    rw [key p lay h, size_layoutOf]
+    exact hsmall p
+  · intro p lay h i hi
+    rw [key p lay h] at hi ⊢
+    exact hk p _ (layoutOf_key_mem _ i hi)
+
+theorem tableFrom_length (es : List (Nat × Lay)) (off : Nat) : (tableFrom es off).length = 10 * es.length := by
+  induction es generalizing off with
+  | nil => rfl
+  | cons e r ih => simp only [tableFrom, List.length_append, le_length, ih, List.length_cons]; omega
+
+theorem headerRest_length (fmt : Fmt) (m : MetaKVs) (es : List (Nat × Lay)) :
+    (headerRest fmt m es).length = 24 + (metaBytes fmt m).length + 10 * es.length := by
+  simp only [headerRest, List.length_append, le_length, magicOf_length, tableFrom_length]; omega
+
+theorem bodyBytes_length_le (es : List (Nat × Lay)) (h : ∀ e ∈ es, e.2.size < 2^29) :
+    (bodyBytes es).length ≤ es.length * (4 + 8 * 2^29) := by
+  induction es with
+  | nil => simp [bodyBytes]
+  | cons e r ih =>
+    rw [bodyBytes_cons, List.length_append, bucketBytes_length, List.length_cons, Nat.succ_mul]
+    have := ih (fun e' he' => h e' (List.mem_cons_of_mem _ he'))
+    have := h e (List.mem_cons_self ..)
+    omega
+
+/-- a bucket never holds more hashes than there were `Put`s -/
+theorem bucket_length_le (h : Sig → Nat) (sigs : List Sig) (w : Buckets) (p : Nat) :
+    ((sigs.foldl (put h) w).getD p []).length ≤ (w.getD p []).length + sigs.length := by
+  induction sigs generalizing w with
+  | nil => simp
+  | cons s r ih =>
+    rw [List.foldl_cons]
+    refine Nat.le_trans (ih (put h w s)) ?_
+    by_cases hp : p < w.size
+    · rw [getD_put h w s p hp]
+      by_cases e : prefixOf s = p
+      · simp [e]; omega
+      · simp [e]
+    · have : (put h w s).getD p [] = [] := by simp [Array.getD, size_put, hp]
+      rw [this]; simp; omega
+
+/-- the explicit size hypotheses of the file (header length in `uint32`, offsets in `int64`) follow from a
+    metadata bound and the per-bucket bound -/
+theorem sizes_ok (fmt : Fmt) (m : MetaKVs) (sd : Sealed) (hok : SealedOk sd)
+    (hmeta : (metaBytes fmt m).length < 2^31) :
+    (headerRest fmt m (entries fmt sd)).length < 2^32 ∧ (encode fmt m sd).length < 2^63 := by
+  have hn := entries_length_le fmt sd
+  have hb := bodyBytes_length_le (entries fmt sd) (fun e he => hok.small e.1 e.2 (entries_key fmt sd e he).2)
+  have hr := headerRest_length fmt m (entries fmt sd)
+  simp only [numPrefixes] at hn
+  have hmul : (entries fmt sd).length * (4 + 8 * 2^29) ≤ 65536 * (4 + 8 * 2^29) := Nat.mul_le_mul_right _ hn
+  constructor
+  · omega
+  · rw [encode, List.length_append, headerBytes, List.length_append, le_length]; omega
 
 end BK
